@@ -175,6 +175,16 @@ func (u *UserHash) writeHashStr(password string, isAdmin bool, mayCreate bool) e
 	}
 	defer file.Close() //nolint:errcheck
 
+	// if we fail before the new file is in place, don't leave the empty file we just created behind
+	committed := false
+	if mayCreate {
+		defer func() {
+			if !committed {
+				os.Remove(file.Name()) //nolint:errcheck
+			}
+		}()
+	}
+
 	tmp, err := u.store.getTempFile()
 	if err != nil {
 		return err
@@ -210,6 +220,7 @@ func (u *UserHash) writeHashStr(password string, isAdmin bool, mayCreate bool) e
 	if err := os.Rename(tmp.Name(), file.Name()); err != nil {
 		return err
 	}
+	committed = true
 
 	// Flush the move to disk
 	return syncDir(filepath.Dir(file.Name()))
